@@ -12,6 +12,7 @@ from urllib.parse import quote, unquote, urljoin
 
 from vf.monitor import Probes
 
+MIN_RANDOM = 150  # random iterations run per shard whatever the wall-clock budget (floors must not depend on machine load)
 SHARDS = {"quick": 4, "thorough": 16}
 BUDGET = {"quick": 20, "thorough": 240}
 MIN_CASES = {"quick": 10000, "thorough": 200000}
@@ -349,7 +350,7 @@ def run(ctx):
         ctx.exhaustive_space("depth 2: 6x5 outer x 6x5x8 inner x 4 encoding pairs", n2)
         n = 0
         lim = 12000 if ctx.tier == "quick" else 10 ** 7
-        while ctx.time_left() and n < lim:
+        while (ctx.time_left() or n < MIN_RANDOM) and n < lim:
             n += 1
             depth = rng.randint(3, 4)
             t = rng.choice(TARGETS + AMP[:11])
